@@ -468,6 +468,7 @@ func run(c *enum.Ctx, prop string) {
 				for _, r := range words {
 					for _, q := range words {
 						k := Case{Aligner: al, R: r, Q: q, Letters: def, M: M, Open: op}
+						c.Doing(mi, k)
 						c.Eval()
 						fs := evaluate(k)
 						report(c, prop, k, fs)
@@ -505,6 +506,7 @@ func run(c *enum.Ctx, prop string) {
 			for _, r := range words4 {
 				for _, q := range words4 {
 					k := Case{Aligner: al, R: r, Q: q, Letters: def4, M: M, Open: -1}
+					c.Doing(mi, k)
 					c.Eval()
 					report(c, prop, k, evaluate(k))
 				}
@@ -540,6 +542,7 @@ func run(c *enum.Ctx, prop string) {
 		)
 	}
 	for _, k := range ills {
+		c.Doing(0, k)
 		c.Eval()
 		c.Nontrivial(enum.J(k))
 		report(c, prop, k, illTyped(k))
